@@ -155,6 +155,16 @@ static double rcoord(vfh::Rng &r, double L, double hi, double lo, double unit) {
   return v;
 }
 
+// Triclinic boxes (GROMACS-reduced, upper triangular in VOTCA's column form):
+// tilts b_x = m(0,1), c_x = m(0,2), c_y = m(1,2). Sparse patterns matter: a
+// writer that decides "rectangular?" from the wrong elements loses a box whose
+// only tilt is e.g. c_y. The first triclinic boxes of every process enumerate
+// the 7 non-empty zero/non-zero patterns x 4 magnitude/sign variants; after
+// that each tilt is zero with probability 1/2 (never all three).
+static long g_tilt_seq = 0;
+static std::string tilt_pattern(const M3 &m) {
+  return std::string("b_x") + (m(0, 1) != 0 ? "!=0" : "=0") + " c_x" + (m(0, 2) != 0 ? "!=0" : "=0") + " c_y" + (m(1, 2) != 0 ? "!=0" : "=0");
+}
 static M3 rbox(vfh::Rng &r, int kind, double hi) {
   M3 m = M3::Zero();
   if (kind == 0) return m;
@@ -162,15 +172,25 @@ static M3 rbox(vfh::Rng &r, int kind, double hi) {
   if (r.coin(0.1)) { ax = r.uni(0.5 * hi, hi); }
   m(0, 0) = ax; m(1, 1) = by; m(2, 2) = cz;
   if (kind == 2) {
+    long seq = g_tilt_seq++;
+    int pat, variant = -1;
+    if (seq < 28) { pat = 1 + (int)(seq % 7); variant = (int)(seq / 7); }
+    else { pat = (r.coin() ? 1 : 0) | (r.coin() ? 2 : 0) | (r.coin() ? 4 : 0); if (pat == 0) pat = 1 + (int)r.range(0, 6); }
     auto tilt = [&](double lim) {
-      int c = (int)r.range(0, 7);
-      if (c == 0) return 0.5 * lim;
-      if (c == 1) return -0.5 * lim;
-      return r.uni(-0.5, 0.5) * lim;
+      int c = variant >= 0 ? 100 + variant : (int)r.range(0, 9);
+      double v;
+      if (c == 0) v = 0.5 * lim;                                   // exactly at the reduction boundary
+      else if (c == 1) v = -0.5 * lim;
+      else if (c == 2 || c == 3 || c == 103) v = (r.coin() ? 1 : -1) * r.logu(1e-6, 1e-2) * lim;  // weak tilt
+      else if (c == 100) v = r.uni(0.05, 0.5) * lim;             // all positive
+      else if (c == 101) v = -r.uni(0.05, 0.5) * lim;            // all negative
+      else if (c == 102) v = (r.coin() ? 0.5 : -0.5) * lim;      // boundary values
+      else v = r.uni(-0.5, 0.5) * lim;
+      return v == 0 ? 0.25 * lim : v;
     };
-    m(0, 1) = tilt(ax); m(0, 2) = tilt(ax); m(1, 2) = tilt(by);
-    if (r.coin(0.15)) m(0, 2) = 0;
-    if (m(0, 1) == 0 && m(0, 2) == 0 && m(1, 2) == 0) m(0, 1) = 0.25 * ax;
+    if (pat & 1) m(0, 1) = tilt(ax);
+    if (pat & 2) m(0, 2) = tilt(ax);
+    if (pat & 4) m(1, 2) = tilt(by);
   }
   return m;
 }
@@ -597,6 +617,21 @@ static void judge_frames(const CaseD &c, const std::string &fmt, const std::vect
       judge(fmt, "box-diagonal", worstd <= 1, fmt + "/box-diagonal", "box diagonal differs after the round trip", w);
       if (ekind == 2) {
         std::string key = fmt + "/box-offdiagonal", what = "off-diagonal box elements differ after the round trip";
+        {  // which tilt pattern, which element
+          static const char *EN[3][3] = {{"a_x", "b_x", "c_x"}, {"a_y", "b_y", "c_y"}, {"a_z", "b_z", "c_z"}};
+          double wd = -1; int wi = 0, wj = 1; bool weaklost = false;
+          for (int i = 0; i < 3; ++i)
+            for (int j = 0; j < 3; ++j) {
+              if (i == j) continue;
+              double t = tol1(E.box(i, j), T.box_abs, T.sig, T.scale), d = std::fabs(G.box(i, j) - E.box(i, j)) / t;
+              if (d > wd) { wd = d; wi = i; wj = j; }
+              if (E.box(i, j) != 0 && std::fabs(E.box(i, j)) <= t) weaklost = true;
+            }
+          w.s("tilt_pattern_written", tilt_pattern(E.box)).s("element_that_differs_most", std::string("box(") + std::to_string(wi) + "," + std::to_string(wj) + ") = " + EN[wi][wj])
+              .d("written", E.box(wi, wj)).d("read", G.box(wi, wj));
+          if (g_scenario.empty()) R.counter("triclinic frames judged, " + fmt + ", tilts " + tilt_pattern(E.box));
+          if (weaklost) R.counter(fmt + "/tilt below half a unit of the last printed digit (may legitimately be lost)");
+        }
         if (worsto > 1) {
           bool transposed = true, dropped = true;
           for (int i = 0; i < 3; ++i)
@@ -2113,6 +2148,7 @@ int main(int argc, char **argv) {
     }
   } else if (fam == "dlpoly") {
     long k = A.num("case", 0);
+    g_tilt_seq = k / 2;  // one case per process: enumerate the tilt patterns over the case index
     vfh::Rng r2((uint64_t)seed * 2000003ULL + (uint64_t)k * 104729ULL + 77);
     int variant = (int)(k % 8);
     if (variant == 6 || variant == 7) {
